@@ -8,6 +8,8 @@ MODULES = {
     "C12": ["contracts.c12_derivatives"],
     "C13": ["contracts.c12_derivatives"],
     "C14": ["contracts.c14_bspline", "contracts.c12_derivatives"],
+    "C16": ["contracts.c16_losses"],
+    "C17": ["contracts.c17_regularisers"],
     "C15": ["contracts.c08_linalg", "contracts.c12_derivatives"],
 }
 
